@@ -92,7 +92,7 @@ def build(work, name="default", cc="gcc", opt="-O3", defs=(), hooks=True,
             cmd.append("-D" + GUARD)
         cmd += list(extra_drv)
         cmd += [os.path.join(HARNESS, "drv.c"), b.lib,
-                "-Wl,--wrap=calloc,--wrap=free", "-o", b.drv]
+                "-Wl,--wrap=calloc,--wrap=free", "-lpthread", "-o", b.drv]
         sh(cmd)
     return b
 
